@@ -36,7 +36,10 @@ fn fail(kind: &str, detail: String) -> ! {
     std::process::exit(1)
 }
 
-type FolderModel = (String, BTreeMap<uuid::Uuid, (String, String)>);
+/// secret value of the model: label, note text (empty for file secrets) and, for file secrets, the contents of the
+/// file and of its attachments (empty for notes)
+type SecretModel = (String, String, Vec<Vec<u8>>);
+type FolderModel = (String, BTreeMap<uuid::Uuid, SecretModel>);
 type Model = BTreeMap<VaultId, FolderModel>;
 
 async fn target_for(backend: &str, dir: &Path) -> BackendTarget {
@@ -59,6 +62,38 @@ fn note(r: &mut Rng) -> (SecretMeta, Secret, String, String) {
     (SecretMeta::new(label.clone(), SecretType::Note), Secret::Note { text: text.clone().into(), user_data: UserData::default() }, label, text)
 }
 
+/// a file secret whose content (and, half of the time, one attachment) comes from fresh files under `dir`
+fn file_secret(r: &mut Rng, dir: &Path) -> (SecretMeta, Secret, String, Vec<Vec<u8>>) {
+    use sos_vault::secret::SecretRow;
+    std::fs::create_dir_all(dir).unwrap();
+    let mut contents = vec![];
+    let mut mk = |r: &mut Rng| -> PathBuf {
+        let n = 1 + r.below(3000) as usize;
+        let bytes: Vec<u8> = (0..n).map(|_| r.next() as u8).collect();
+        let p = dir.join(format!("file-{}.txt", r.below(100000000)));
+        std::fs::write(&p, &bytes).unwrap();
+        contents.push(bytes);
+        p
+    };
+    let label = format!("file-label-{}", r.below(100000));
+    let mut secret: Secret = mk(r).try_into().unwrap();
+    if r.below(2) == 0 {
+        let att: Secret = mk(r).try_into().unwrap();
+        secret.user_data_mut().push(SecretRow::new(uuid::Uuid::from_bytes(r.arr()), SecretMeta::new(format!("attachment-{}", r.below(100000)), SecretType::File), att));
+    }
+    (SecretMeta::new(label.clone(), SecretType::File), secret, label, contents)
+}
+
+fn external_checksums(secret: &Secret) -> Vec<[u8; 32]> {
+    use sos_vault::secret::FileContent;
+    let mut out = vec![];
+    if let Secret::File { content: FileContent::External { checksum, .. }, .. } = secret { out.push(*checksum); }
+    for f in secret.user_data().fields() {
+        if let Secret::File { content: FileContent::External { checksum, .. }, .. } = f.secret() { out.push(*checksum); }
+    }
+    out
+}
+
 async fn compare(view: &str, backend: &str, account: &LocalAccount, model: &Model, trace: &Vec<String>, case: usize) {
     let folders = account.list_folders().await.unwrap();
     for (fid, (name, secrets)) in model.iter() {
@@ -75,9 +110,28 @@ async fn compare(view: &str, backend: &str, account: &LocalAccount, model: &Mode
         if ids != want {
             fail("listing", format!("\"backend\":\"{}\",\"view\":\"{}\",\"case\":{},\"trace\":{:?},\"folder\":{:?},\"listed\":{},\"live\":{}", backend, view, case, trace, name, ids.len(), want.len()));
         }
-        for (id, (label, text)) in secrets.iter() {
+        for (id, (label, text, files)) in secrets.iter() {
             match account.read_secret(id, Some(fid)).await {
                 Ok((row, _)) => {
+                    if !files.is_empty() && !(view == "live" || view.starts_with("restored") || view.starts_with("upgraded")) {
+                        if row.meta().label() != label { fail("read-your-writes", format!("\"backend\":\"{}\",\"view\":\"{}\",\"case\":{},\"trace\":{:?},\"want\":{:?},\"got\":{:?}", backend, view, case, trace, label, row.meta().label())); }
+                        continue;
+                    }
+                    if !files.is_empty() {
+                        // C17 / C18 / C19: every external file of the secret (content and attachments) downloads to the bytes written
+                        let mut got: Vec<Vec<u8>> = vec![];
+                        for cs in external_checksums(row.secret()) {
+                            match account.download_file(fid, id, &sos_core::ExternalFileName::from(cs)).await {
+                                Ok(b) => got.push(b),
+                                Err(e) => fail("attachment-missing", format!("\"backend\":\"{}\",\"view\":\"{}\",\"case\":{},\"trace\":{:?},\"secret\":{:?},\"error\":\"{}\"", backend, view, case, trace, label, e.to_string().replace('"', "'"))),
+                            }
+                        }
+                        let mut want = files.clone(); want.sort(); got.sort();
+                        if got != want || row.meta().label() != label {
+                            fail("attachments-differ", format!("\"backend\":\"{}\",\"view\":\"{}\",\"case\":{},\"trace\":{:?},\"secret\":{:?},\"files_written\":{},\"files_served\":{}", backend, view, case, trace, label, want.len(), got.len()));
+                        }
+                        continue;
+                    }
                     let got_text = match row.secret() { Secret::Note { text, .. } => text.expose_secret().to_string(), _ => "<not a note>".into() };
                     if row.meta().label() != label || &got_text != text {
                         fail("read-your-writes", format!("\"backend\":\"{}\",\"view\":\"{}\",\"case\":{},\"trace\":{:?},\"want\":[{:?},{:?}],\"got\":[{:?},{:?}]", backend, view, case, trace, label, text, row.meta().label(), got_text));
@@ -103,7 +157,7 @@ async fn compare_index(view: &str, backend: &str, account: &LocalAccount, model:
     let mut got: Vec<(VaultId, uuid::Uuid, String)> = index.documents().values().map(|d| (*d.folder_id(), *d.id(), d.meta().label().to_string())).collect();
     got.sort();
     let mut want: Vec<(VaultId, uuid::Uuid, String)> = vec![];
-    for (fid, (_, secrets)) in model.iter() { for (id, (label, _)) in secrets.iter() { want.push((*fid, *id, label.clone())); } }
+    for (fid, (_, secrets)) in model.iter() { for (id, (label, _, _)) in secrets.iter() { want.push((*fid, *id, label.clone())); } }
     want.sort();
     if got != want {
         let stale: Vec<&(VaultId, uuid::Uuid, String)> = got.iter().filter(|g| !want.contains(g)).collect();
@@ -180,9 +234,19 @@ pub async fn run(cases: usize, seed: u64) {
                 let (m, s, l, t) = note(&mut r);
                 let id = account.create_secret(m, s, AccessOptions { folder: Some(*b.id()), ..Default::default() }).await.unwrap().id;
                 plaintexts.push(l.clone()); plaintexts.push(t.clone());
-                let mut secrets = BTreeMap::new(); secrets.insert(id, (l, t));
+                let mut secrets = BTreeMap::new(); secrets.insert(id, (l, t, vec![]));
                 model.insert(*b.id(), (name, secrets));
                 trace.push("create_folder(scratch); create_folder; delete_folder(scratch); create_secret".into());
+            }
+            if case % 4 == 2 {
+                // every fourth history holds one file secret (half of them with an attachment) in the default folder;
+                // file encryption uses a deliberately slow passphrase KDF, so there is at most one per history
+                let fid = *default_folder.id();
+                let (m, s, l, files) = file_secret(&mut r, &sandbox_dir.join("inputs"));
+                let nfiles = files.len();
+                let id = account.create_secret(m, s, AccessOptions { folder: Some(fid), ..Default::default() }).await.unwrap().id;
+                model.get_mut(&fid).unwrap().1.insert(id, (l, String::new(), files));
+                trace.push(format!("create_file_secret({} file(s))", nfiles));
             }
             let n = 3 + r.below(8) as usize;
             for _ in 0..n {
@@ -197,16 +261,17 @@ pub async fn run(cases: usize, seed: u64) {
                         let (m, s, l, t) = note(&mut r);
                         let id = account.create_secret(m, s, AccessOptions { folder: Some(fid), ..Default::default() }).await.unwrap().id;
                         plaintexts.push(l.clone()); plaintexts.push(t.clone());
-                        model.get_mut(&fid).unwrap().1.insert(id, (l, t));
+                        model.get_mut(&fid).unwrap().1.insert(id, (l, t, vec![]));
                         trace.push("create_secret".into());
                     }
                     3 => {
                         let ids: Vec<uuid::Uuid> = model[&fid].1.keys().copied().collect();
+                        let ids: Vec<uuid::Uuid> = ids.into_iter().filter(|i| model[&fid].1[i].2.is_empty()).collect();
                         if !ids.is_empty() {
                             let id = ids[r.below(ids.len() as u64) as usize];
                             let (m, s, l, t) = note(&mut r);
                             account.update_secret(&id, m, Some(s), AccessOptions { folder: Some(fid), ..Default::default() }).await.unwrap();
-                            model.get_mut(&fid).unwrap().1.insert(id, (l, t));
+                            model.get_mut(&fid).unwrap().1.insert(id, (l, t, vec![]));
                             trace.push("update_secret".into());
                         }
                     }
@@ -336,8 +401,14 @@ pub async fn run(cases: usize, seed: u64) {
             // ---- C18: tampered archives are rejected, no account created ------------------------------
             let entries = read_entries(&archive).await;
             let mut variants: Vec<(String, Vec<(String, Vec<u8>)>)> = vec![];
-            // (a) one byte of a non-manifest, non-empty entry flipped
-            let cands: Vec<usize> = entries.iter().enumerate().filter(|(_, (n, d))| !n.contains("manifest") && !d.is_empty()).map(|(i, _)| i).collect();
+            // (a) one byte flipped in a non-manifest entry WHOSE CHECKSUM THE MANIFEST LISTS (the property speaks of
+            //     "an archive whose manifest checksums do not match its entries"; attachment blobs carry no manifest
+            //     checksum in either archive format and are not tampered with here)
+            let manifest_text: String = entries.iter().filter(|(n, _)| n.contains("manifest")).map(|(_, d)| String::from_utf8_lossy(d).to_string()).collect();
+            let cands: Vec<usize> = entries.iter().enumerate().filter(|(_, (n, d))| {
+                use sha2::{Digest, Sha256};
+                !n.contains("manifest") && !d.is_empty() && manifest_text.contains(&hex::encode(Sha256::digest(d)))
+            }).map(|(i, _)| i).collect();
             if !cands.is_empty() {
                 let k = cands[r.below(cands.len() as u64) as usize];
                 let mut e2 = entries.clone();
